@@ -191,4 +191,34 @@ def _over_key(over):
     return re.sub(r"[^A-Za-z0-9_.\[\]()*:]", "", over)[:40]
 
 
-RULES = [("C17-R1", rule_r1), ("C17-R2", rule_r2), ("C17-R3", rule_r3)]
+def rule_r4(ctx):
+    from ..reference import grammar as G
+    from .c03 import slot_table
+
+    rr = RuleResult("C17-R4", "chain slots of the custom unparser do not parenthesise the same-kind child (N links must not become N nested parentheses)")
+    rr.exhaustive = True
+    rr.floor = 15
+    U = ctx.ustr
+    prec = U.node_precedences()
+    table = slot_table(ctx)
+    for skind, sfield, op, children in G.chain_slots():
+        slots = {sp for kind, pr, h, k2, f2, o2, sole, sp in table if k2 == skind and f2 == sfield and (op is None or o2 == op) and sp is not None}
+        if not slots:
+            raise AnalysisError(f"C17-R4: slot {skind}.{sfield}[{op}] not found in the unparser model")
+        for sp in slots:
+            for c in children:
+                rr.instances += 1
+                cp = prec.get(c)
+                what = f"{skind}.{sfield}[{op}]|{c}"
+                if isinstance(cp, int) and U.wraps(cp, sp):
+                    rr.fail(
+                        f"C17-R4|{skind}.{sfield}{'[' + op + ']' if op else ''}|{c}|chain-parenthesised",
+                        f"{U.gen_map[skind].where()}: a {c} in slot {skind}.{sfield}{' of ' + op if op else ''} (slot precedence {sp}, child precedence {cp}) is wrapped in parentheses although the grammar does not need them: an elif / operator / call chain of N links becomes N nested parentheses, and CPython refuses more than about 200 (`a if t else (b if u else (...))`)",
+                        where=U.gen_map[skind].where(), what=what,
+                    )
+                else:
+                    rr.ok(what, sample={"rule": "C17-R4", "slot": f"{skind}.{sfield}", "op": op, "child": c, "parenthesised": False})
+    return rr
+
+
+RULES = [("C17-R4", rule_r4), ("C17-R1", rule_r1), ("C17-R2", rule_r2), ("C17-R3", rule_r3)]
